@@ -548,6 +548,55 @@ pub const CORPUS: &[&str] = &[
     "a", "abc", "x1", "a.b", "<=", "!", "#t", "#f", "#nil", "()",
 ];
 
+/// The options API itself: getters return what the builder methods set, the
+/// plural keyword setter equals the singular ones, and setting a field twice
+/// keeps the last value.
+fn check_options_api(qi: usize) -> CaseResult {
+    use lexpr::parse::{Brackets, CharSyntax, KeywordSyntax, NilSymbol, Options, StringSyntax, TSymbol};
+    let q = QOpt::from_index(qi);
+    let o = q.to_lexpr();
+    let fail = |what: &str| Failure::new(format!("C08 options-api {}", what), format!("parser option set #{} ({:?}): {}", qi, q, what), json!({"options_api": qi}));
+    let kws = [(KeywordSyntax::ColonPrefix, q.kw_prefix), (KeywordSyntax::ColonPostfix, q.kw_postfix), (KeywordSyntax::Octothorpe, q.kw_octo)];
+    for (k, want) in kws {
+        if o.keyword_syntax(k) != want {
+            return Err(fail("keyword_syntax getter"));
+        }
+    }
+    let nil_ok = matches!((o.nil_symbol(), q.nil), (NilSymbol::Default, QNil::Default) | (NilSymbol::EmptyList, QNil::EmptyList) | (NilSymbol::Special, QNil::Special));
+    let t_ok = matches!((o.t_symbol(), q.t_true), (TSymbol::True, true) | (TSymbol::Default, false));
+    let br_ok = matches!((o.brackets(), q.brackets_vector), (Brackets::Vector, true) | (Brackets::List, false));
+    let st_ok = matches!((o.string_syntax(), q.string), (StringSyntax::Elisp, Syn::Elisp) | (StringSyntax::R6RS, Syn::R6RS));
+    let ch_ok = matches!((o.char_syntax(), q.chr), (CharSyntax::Elisp, Syn::Elisp) | (CharSyntax::R6RS, Syn::R6RS));
+    if !(nil_ok && t_ok && br_ok && st_ok && ch_ok && o.racket_hash_percent_symbols() == q.racket && o.leading_digit_symbols() == q.digits) {
+        return Err(fail("a getter disagrees with the builder"));
+    }
+    // plural setter on top of other keyword flags replaces them
+    let enabled: Vec<KeywordSyntax> = kws.iter().filter(|(_, on)| *on).map(|(k, _)| *k).collect();
+    let plural = Options::elisp().with_keyword_syntaxes(enabled.iter());
+    for (k, want) in kws {
+        if plural.keyword_syntax(k) != want {
+            return Err(fail("with_keyword_syntaxes"));
+        }
+    }
+    // probe: the options behave as the getters say on a text that exercises all of them
+    let probe = "(nil t :a b: #:c [x] \"\\x41;\" 1+ #%r)";
+    let a = lexpr::from_str_custom(probe, o).map(|v| MV::from_value(&v)).map_err(|e| e.to_string());
+    let rebuilt = Options::new()
+        .with_keyword_syntaxes(enabled.iter())
+        .with_nil_symbol(o.nil_symbol())
+        .with_t_symbol(o.t_symbol())
+        .with_brackets(o.brackets())
+        .with_string_syntax(o.string_syntax())
+        .with_char_syntax(o.char_syntax())
+        .with_racket_hash_percent_symbols(o.racket_hash_percent_symbols())
+        .with_leading_digit_symbols(o.leading_digit_symbols());
+    let b = lexpr::from_str_custom(probe, rebuilt).map(|v| MV::from_value(&v)).map_err(|e| e.to_string());
+    if a != b {
+        return Err(fail("an option set rebuilt from its getters reads differently"));
+    }
+    Ok(Eval::new(true, qi as u64 ^ 0x0b7).class("options-api:checked"))
+}
+
 fn run(ctx: &mut Ctx) {
     let tier = ctx.tier;
     let mut cases: Vec<Case> = Vec::new();
@@ -575,6 +624,7 @@ fn run(ctx: &mut Ctx) {
             }
         }
     }
+    ctx.par_sweep("options-api", (0..N_QOPT).into_par_iter(), check_options_api);
     let this = &*ctx;
     let st = cases
         .par_iter()
@@ -608,6 +658,9 @@ fn run(ctx: &mut Ctx) {
 }
 
 fn replay(_sub: &str, case: &Json) -> Option<CaseResult> {
+    if let Some(qi) = case.get("options_api").and_then(|q| q.as_u64()) {
+        return Some(check_options_api(qi as usize));
+    }
     let c: Case = serde_json::from_value(case.get("case")?.clone()).ok()?;
     let want_q = case.get("q").and_then(|q| q.as_u64());
     let rs = check_case(&c);
